@@ -81,11 +81,17 @@ def gen_cases(rng, tier):
                     continue
                 lines = gen_file(rng, st, mode)
                 n = len(lines)
+                # a quarter of the files are keyed on an ID attribute that several lines share: merge_strategy='create_unique'
+                # keeps all lines (under new keys) and must leave their attributes as they were written
+                idkey = (rep + i) % 4 == 1 and not any(k == "ID" for ln in lines for k, _ in ln["attrs"])
+                if idkey:
+                    for ln in lines:
+                        ln["attrs"].insert(0, ["ID", [rng.choice(["a", "b", "c"])]])
                 junk = []
                 for j in range(n + 1):
                     if rng.random() < 0.2:
                         junk.append([j, rng.choice(["#comment", "##directive x", "", "###"])])
-                cases.append({"st": st, "mode": mode, "lines": lines, "junk": junk,
+                cases.append({"st": st, "mode": mode, "lines": lines, "junk": junk, "idkey": idkey,
                               "checklines": rng.choice([0, 1, 2, max(0, n - 1), n, n + 2, 10, 10]),
                               "keep_order": rng.random() < 0.75, "sort_values": rng.random() < 0.2})
     for i in range(150 if tier == "quick" else 3000):
@@ -196,7 +202,7 @@ def run_impl(c):
     raw, text = file_text(c)
     d = tempfile.mkdtemp(prefix="c01")
     kw = dict(checklines=c["checklines"], keep_order=c["keep_order"], sort_attribute_values=c["sort_values"],
-              id_spec="no_such_key_zz", merge_strategy="create_unique", disable_infer_genes=True,
+              id_spec="ID" if c.get("idkey") else "no_such_key_zz", merge_strategy="create_unique", disable_infer_genes=True,
               disable_infer_transcripts=True, verbose=False)
     out = {"raw": raw}
 
@@ -274,6 +280,8 @@ def labels(c, o):
     yield "nlines=%d" % len(c["lines"])
     yield "checklines%s" % ("<n" if c["checklines"] + 1 < len(c["lines"]) else ">=n")
     yield "keep_order=%s" % c["keep_order"]
+    if c.get("idkey"):
+        yield "keyed-on-shared-ID"
     if c["sort_values"]:
         yield "sort_values"
     if c["junk"]:
